@@ -5,7 +5,7 @@
    Conventions of the model (Model/C04_Dens.v): a parameter is a list of length 1 (scalar, broadcast by
    `bc n`) or n; `fixed` selects the repaired (true) or the unrepaired (false) formula of the defects
    that have a fix proposal; lnGamma enters through its value G = Gamma(shape) > 0. *)
-From CV Require Import Base.Tac Base.Cmp Model.C04_Dens Model.C04_Cdf Proofs.C04_Cdf Proofs.C04_Cdf2 Proofs.C04_Beta Proofs.C04_Lim Proofs.C04_InvGamma Proofs.C04_Refine Proofs.C04_GammaLaw Proofs.C04_Dens Proofs.C04_Gauss Proofs.C04_Norm Proofs.C04_More Proofs.C04_Sym Proofs.C04_Box Proofs.C04_GaussInt Proofs.C04_BoxNormal Proofs.C04_GaussDoc.
+From CV Require Import Base.Tac Base.Cmp Model.C04_Dens Model.C04_Cdf Proofs.C04_Cdf Proofs.C04_Cdf2 Proofs.C04_Beta Proofs.C04_Lim Proofs.C04_InvGamma Proofs.C04_Refine Proofs.C04_GammaLaw Proofs.C04_Dens Proofs.C04_Gauss Proofs.C04_Norm Proofs.C04_More Proofs.C04_Sym Proofs.C04_Box Proofs.C04_GaussInt Proofs.C04_BoxNormal Proofs.C04_GaussDoc Proofs.C04_Slap Proofs.C04_CdfNd.
 From Coq Require Import QArith Reals Lra.
 From Coquelicot Require Import Coquelicot.
 Local Open Scope R_scope.
@@ -98,6 +98,21 @@ Theorem C04_smoothedlaplace_logpdf_refuted :
     slap_logpdf false loc scale beta x <> ln (slap_pdf loc scale beta x).
 Proof. exact slap_logpdf_refuted. Qed.
 Print Assumptions C04_smoothedlaplace_logpdf_refuted.
+
+(* ... but the documented SmoothedLaplace density itself (slap_dens mu b beta = the factor slap_pdf1 of slap_pdf) is NOT a probability density
+   for beta > 0: strictly below the Laplace density, its mass over [mu - T, mu + T] stays below 1 - gap for a gap > 0 independent of T, so it
+   does not integrate to one (finding SmoothedLaplace.logpdf|beta>0:density-not-normalised; witness: total mass K_1(1) = 0.6019 for b = beta = 1) *)
+Theorem C04_smoothedlaplace_normalised_refuted : forall mu b beta : R, 0 < b -> 0 < beta ->
+  (forall x, slap_dens mu b beta x = slap_pdf1 beta (mu, b, x) /\ slap_dens mu b beta x < laplace_dens mu b x) /\
+  0 < slap_gap mu b beta /\
+  (forall T, 1 <= T -> RInt (slap_dens mu b beta) (mu - T) (mu + T) <= 1 - exp (- T / b) - slap_gap mu b beta) /\
+  ~ is_lim (fun T => RInt (slap_dens mu b beta) (mu - T) (mu + T)) p_infty 1.
+Proof.
+  intros mu b beta Hb Hbe. split; [intros x; split; [reflexivity | apply slap_dens_lt; assumption]|].
+  destruct (slap_subnormalised mu b beta Hb Hbe) as [Hg Hle]. split; [exact Hg|]. split; [exact Hle|].
+  apply slap_not_normalised; assumption.
+Qed.
+Print Assumptions C04_smoothedlaplace_normalised_refuted.
 
 (* ---------- Uniform: inside the box; guarded (scalar low AND scalar high with dim > 1 is the defective class) ---------- *)
 Theorem C04_uniform_logpdf : forall (fixed : bool) (dim : nat) (low high : list R),
@@ -495,6 +510,12 @@ Theorem C04_box_int_unique : forall (f : list R -> R) (box : list (R * R)) (v w 
 Proof. exact is_box_int_unique. Qed.
 Print Assumptions C04_box_int_unique.
 
+(* ... and it determines the iterated RInt (Coquelicot's total integral function), first coordinate outermost *)
+Theorem C04_box_int_is_iterated_RInt : forall (f : list R -> R) (box : list (R * R)) (v : R),
+  is_box_int f box v -> box_RInt f box = v.
+Proof. exact is_box_int_RInt. Qed.
+Print Assumptions C04_box_int_is_iterated_RInt.
+
 (* the Fubini step for product densities, every n and every parameter type *)
 Theorem C04_box_int_product : forall (A : Type) (k : A -> R -> R) (ms : A -> R * R -> R) (ps : list A) (box : list (R * R)),
   length box = length ps ->
@@ -648,4 +669,54 @@ Proof.
   split; [repeat constructor; lra|]. split; [reflexivity|]. split.
   - unfold uniform_logpdf. cbn [bcast2 map bc repeat rprod fold_right]. f_equal. f_equal. lra.
   - apply (gauss_diag_scalar_forms_agree FSqrtprec FCov 4 (0 :: nil) (1 :: 1 :: nil)); [left; reflexivity | lra].
+Qed.
+
+(* ---------- "the cdf, where offered, is the integral of that density", n dimensions ----------
+   Normal.cdf (product of the 1-d cdfs, as the code computes it): the masses (C04_normal_box_mass) of the lower-orthant boxes prod [x_i - T, x_i]
+   tend to it; same for the repaired Cauchy.cdf (the code's sum is the known finding); Gamma / Beta with integer shapes: the product of the 1-d
+   cdfs IS the box integral of exp(logpdf) over prod (0, x_i) (FULL; non-integer shapes and the dense Gaussian cdf remain uncovered) *)
+Theorem C04_normal_cdf_nd : forall mean std xs : list R, Forall (fun s => 0 < s) std ->
+  is_lim (fun T => rprod (map (ls_mass1 normal_cdf1) (combine (zip2 (bc (length xs) mean) (bc (length xs) std)) (lower_box T xs))))
+         p_infty (normal_cdf mean std xs).
+Proof. exact normal_cdf_nd. Qed.
+Print Assumptions C04_normal_cdf_nd.
+
+Theorem C04_cauchy_cdf_nd : forall loc scale xs : list R, Forall (fun s => 0 < s) scale ->
+  is_lim (fun T => rprod (map (ls_mass1 cauchy_cdf1) (combine (zip2 (bc (length xs) loc) (bc (length xs) scale)) (lower_box T xs))))
+         p_infty (cauchy_cdf true loc scale xs).
+Proof. exact cauchy_cdf_nd. Qed.
+Print Assumptions C04_cauchy_cdf_nd.
+
+Theorem C04_gamma_int_cdf_nd : forall (ps : list (nat * R)) (xs : list R), length xs = length ps ->
+  Forall (fun p => 0 < snd p) ps -> Forall (fun x => 0 < x) xs ->
+  is_box_int (fun ts => exp (gamma_logpdf (map gamma_int_g ps) (map gamma_int_shape ps) (map snd ps) ts))
+             (map (fun x => (0, x)) xs) (rprod (map (fun q => gamma_int_cdf1 (fst (fst q)) (snd (fst q)) (snd q)) (combine ps xs))).
+Proof. exact gamma_int_cdf_nd. Qed.
+Print Assumptions C04_gamma_int_cdf_nd.
+
+Theorem C04_beta_int_cdf_nd : forall (ps : list (nat * nat)) (xs : list R), length xs = length ps ->
+  Forall (fun x => 0 < x <= 1) xs ->
+  is_box_int (fun ts => exp (beta_logpdf (map beta_int_ga ps) (map beta_int_gb ps) (map beta_int_gab ps)
+                                         (map beta_int_alpha ps) (map beta_int_beta ps) ts))
+             (map (fun x => (0, x)) xs) (rprod (map (fun q => beta_int_cdf1 (fst (fst q)) (snd (fst q)) (snd q)) (combine ps xs))).
+Proof. exact beta_int_cdf_nd. Qed.
+Print Assumptions C04_beta_int_cdf_nd.
+
+(* non-vacuity of the n-dimensional theorems: a 2-d Normal with scalar mean and vector std over a box, a 2-d Gamma (shapes 2 and 1),
+   a 2-d Beta, a 1-d InverseGamma and a SmoothedLaplace instance satisfy the hypotheses *)
+Example C04_nonvacuous_nd :
+  (exists v, is_box_int (fun xs => exp (normal_logpdf (0 :: nil) (1 :: 2 :: nil) xs)) ((-1, 1) :: (0, 2) :: nil) v) /\
+  (exists v, is_box_int (fun xs => exp (gamma_logpdf (map gamma_int_g ((1%nat, 2) :: (0%nat, 3) :: nil)) (map gamma_int_shape ((1%nat, 2) :: (0%nat, 3) :: nil))
+                                                     (map snd ((1%nat, 2) :: (0%nat, 3) :: nil)) xs)) ((0, 5) :: (0, 5) :: nil) v) /\
+  is_box_int (fun xs => exp (beta_logpdf (map beta_int_ga ((1%nat, 2%nat) :: (0%nat, 0%nat) :: nil)) (map beta_int_gb ((1%nat, 2%nat) :: (0%nat, 0%nat) :: nil))
+                                         (map beta_int_gab ((1%nat, 2%nat) :: (0%nat, 0%nat) :: nil)) (map beta_int_alpha ((1%nat, 2%nat) :: (0%nat, 0%nat) :: nil))
+                                         (map beta_int_beta ((1%nat, 2%nat) :: (0%nat, 0%nat) :: nil)) xs)) ((0, 1) :: (0, 1) :: nil) 1 /\
+  is_lim (fun T => rprod (map (invgamma_mass1 T) ((2%nat, -1, 3) :: nil))) p_infty 1 /\
+  0 < slap_gap 0 1 1.
+Proof.
+  split; [eexists; apply (normal_box_mass (0 :: nil) (1 :: 2 :: nil) ((-1, 1) :: (0, 2) :: nil)); [left; reflexivity | right; reflexivity | repeat constructor; lra]|].
+  split; [eexists; apply (gamma_int_box_mass ((1%nat, 2) :: (0%nat, 3) :: nil) 5); [lra | repeat constructor; cbn; lra]|].
+  split; [exact (beta_int_box_normalised ((1%nat, 2%nat) :: (0%nat, 0%nat) :: nil))|].
+  split; [apply invgamma_int_box_normalised; repeat constructor; cbn; lra|].
+  apply slap_gap_pos; lra.
 Qed.
